@@ -950,7 +950,11 @@ class ISLaSolver:
                 self.enforce_unique_trees_in_queue
             ),
             debug=debug.value_or(self.debug),
-            cost_computer=cost_computer.value_or(self.cost_computer),
+            # The cost computer is bound to the graph of this solver's grammar; it
+            # must not be reused for a different grammar.
+            cost_computer=cost_computer.value_or(
+                self.cost_computer if not is_successful(grammar) else None
+            ),
             timeout_seconds=timeout_seconds.value_or(self.timeout_seconds),
             global_fuzzer=global_fuzzer.value_or(self.global_fuzzer),
             predicates_unique_in_int_arg=predicates_unique_in_int_arg.value_or(
@@ -973,7 +977,10 @@ class ISLaSolver:
             start_symbol=start_symbol,
         )
 
-        result.regex_cache = self.regex_cache
+        if not is_successful(grammar):
+            # The cached regular expressions are keyed by nonterminal symbols and
+            # thus only valid for this solver's grammar.
+            result.regex_cache = self.regex_cache
 
         return result
 
